@@ -71,7 +71,12 @@ func c17Script(c *Ctx, track bool, gen string) Case {
 			evs = append(evs, nsEvent{"nick " + drv.H(nn), "NICK -> " + nn})
 			cur = nn
 		case 2:
-			ref := r.Pick("taken", cur+"1", "x")
+			// the nick the client asked for and did not get: anything but its current one - look-alikes included
+			// (a proper prefix, the nick without its first byte, another letter case)
+			ref := r.Pick("taken", cur+"1", "x", cur[:len(cur)/2+len(cur)%2], cur[:len(cur)-1], cur[1:], strings.ToUpper(cur), strings.ToLower(cur))
+			if ref == cur || ref == "" {
+				ref = cur + "1"
+			}
 			evs = append(evs, nsEvent{"433 " + drv.H(ref), "433 later " + ref})
 		default:
 			from := r.Pick("other", cur+"_", "_"+cur, strings.ToUpper(cur)+"x")
